@@ -53,8 +53,8 @@ def r1(ctx, R):
         pops = q.calls(fi, name="pop", recv_endswith="callstack")
         rbs = q.calls(fi, name="rollback", recv_endswith="callstack")
         evs = q.calls(fi, name="on_eval_formula")
-        R.need(len(app) == 1, "expected one callstack.append in %s, found %d" % (spec, len(app)))
-        R.need(len(evs) == 1, "expected one on_eval_formula call in %s" % spec)
+        R.must(len(app) == 1, "expected one callstack.append in %s, found %d" % (spec, len(app)))
+        R.must(len(evs) == 1, "expected one on_eval_formula call in %s" % spec)
         R.slot(spec, {"push": norm(app[0]), "pop": [norm(p) for p in pops],
                       "rollback": [norm(r) for r in rbs], "formula_call": norm(evs[0])})
         A, E = app[0], evs[0]
@@ -116,7 +116,7 @@ def r1(ctx, R):
 
         R.inst("%s: handler is catch-all and re-raises" % spec)
         tr = [t for t in q.tries(fi) if any(s is E or E in list(ast.walk(s)) for s in t.body)]
-        R.need(len(tr) == 1, "formula call is not inside exactly one try in %s" % spec)
+        R.must(len(tr) == 1, "formula call is not inside exactly one try in %s" % spec)
         hs = tr[0].handlers
         if not any(q.is_catch_all(h) for h in hs):
             R.bad(fi, tr[0], "no catch-all handler around the formula call: exceptions outside "
@@ -133,7 +133,7 @@ def r1(ctx, R):
         fi = ctx.func(spec)
         cfg = fi.cfg
         rs = q.raises(fi, "DeepReferenceError")
-        R.need(rs, "no raise DeepReferenceError in %s" % spec)
+        R.must(rs, "no raise DeepReferenceError in %s" % spec)
         muts = []
         for c in q.calls(fi, name=("append", "appendleft", "extend")):
             muts.append(c)
@@ -152,7 +152,7 @@ def r1(ctx, R):
                 R.bad(fi, r_, "raise DeepReferenceError is not guarded by a test on maxdepth")
         # the guard must be evaluated on every call: it dominates the push
         pushes = [c for c in q.calls(fi, name="append") if call_recv(c) == "deque"]
-        R.need(pushes, "deque.append(self, item) not found in %s" % spec)
+        R.must(pushes, "deque.append(self, item) not found in %s" % spec)
         tests = q.test_nodes(fi, lambda e: q.mentions_attr(e, "maxdepth"))
         for pnode in q.nodes_for(fi, pushes):
             if not cfg.must_pass(tests, pnode):
@@ -172,7 +172,7 @@ def r2(ctx, R):
 
     fi = ctx.func("NonThreadedExecutor._start_exec")
     sets, resets = flag_writes(fi, True), flag_writes(fi, False)
-    R.need(sets, "no is_executing = True in %s" % fi.short)
+    R.must(sets, "no is_executing = True in %s" % fi.short)
     R.slot(fi.short, {"set": [norm(s) for s in sets], "reset": [norm(s) for s in resets]})
     for s in sets:
         R.inst("%s: `%s` followed by reset on all exits" % (fi.short, norm(s)))
@@ -181,7 +181,7 @@ def r2(ctx, R):
                   path=q.explain_path(fi, q.nodes_for(fi, s), [fi.cfg.exit, fi.cfg.raise_],
                                       avoid=set(q.nodes_for(fi, resets)) if resets else ()))
     ev = q.calls(fi, name="_eval_formula")
-    R.need(len(ev) == 1, "expected one _eval_formula call in %s" % fi.short)
+    R.must(len(ev) == 1, "expected one _eval_formula call in %s" % fi.short)
     for fld in ("excinfo", "errorstack"):
         ws = [st for st, t in q.attr_writes(fi, attr=fld)
               if isinstance(st, ast.Assign) and isinstance(st.value, ast.Constant) and st.value.value is None]
@@ -192,10 +192,10 @@ def r2(ctx, R):
 
     ft = ctx.func("ThreadedExecutor._start_exec")
     sets_t = flag_writes(ft, True)
-    R.need(sets_t, "no is_executing = True in %s" % ft.short)
+    R.must(sets_t, "no is_executing = True in %s" % ft.short)
     run = ctx.func("ThreadedExecutor.ExecThread.run")
     ev_t = q.calls(run, name="_eval_formula")
-    R.need(len(ev_t) == 1, "expected one _eval_formula call in %s" % run.short)
+    R.must(len(ev_t) == 1, "expected one _eval_formula call in %s" % run.short)
     resets_t = flag_writes(run, False)
     R.inst("%s: worker resets is_executing after the evaluation on every path" % run.short)
     cfg = run.cfg
@@ -214,7 +214,7 @@ def r2(ctx, R):
         ws = [st for st, t in q.attr_writes(ft, attr=fld)
               if isinstance(st, ast.Assign) and isinstance(st.value, ast.Constant) and st.value.value is None]
         starts = q.calls(ft, name="set", recv_endswith="signal_start")
-        R.need(starts, "signal_start.set() not found in %s" % ft.short)
+        R.must(starts, "signal_start.set() not found in %s" % ft.short)
         R.inst("%s: %s := None dominates the hand-off to the worker" % (ft.short, fld))
         if not ws or not q.dominated(ft, ws, starts[0]):
             R.bad(ft, starts[0], "%s is not cleared before the evaluation starts" % fld, stmt=fld)
@@ -313,8 +313,8 @@ def r4(ctx, R):
     fi = ctx.func("CellsImpl._store_value")
     rs = q.raises(fi, "NoneReturnedError")
     ws = [st for st, t in q.subscript_writes(fi, "data")]
-    R.need(rs, "raise NoneReturnedError not found in _store_value")
-    R.need(ws, "no write to data in _store_value")
+    R.must(rs, "raise NoneReturnedError not found in _store_value")
+    R.must(ws, "no write to data in _store_value")
     R.slot("_store_value", {"raises": [norm(r) for r in rs], "writes": [norm(w) for w in ws]})
     for w in ws:
         for r_ in rs:
@@ -341,7 +341,7 @@ def r4(ctx, R):
     for spec in ("CellsImpl.on_eval_formula",):
         f2 = ctx.func(spec)
         st = q.calls(f2, name="_store_value")
-        R.need(st, "no _store_value call in %s" % spec)
+        R.must(st, "no _store_value call in %s" % spec)
         for c in st:
             R.inst("%s: stored value is the formula's return value" % spec)
             val = c.args[1] if len(c.args) > 1 else None
@@ -371,9 +371,9 @@ def r5(ctx, R):
     fi = ctx.func("NonThreadedExecutor._start_exec")
     cfg = fi.cfg
     ev = q.calls(fi, name="_eval_formula")
-    R.need(len(ev) == 1, "expected one _eval_formula call")
+    R.must(len(ev) == 1, "expected one _eval_formula call")
     tr = [t for t in q.tries(fi) if any(ev[0] in list(ast.walk(s)) for s in t.body)]
-    R.need(len(tr) == 1, "_eval_formula call not inside exactly one try")
+    R.must(len(tr) == 1, "_eval_formula call not inside exactly one try")
     R.inst("_start_exec: catch-all handler stores sys.exc_info() in excinfo")
     hs = [h for h in tr[0].handlers if q.is_catch_all(h)]
     if not hs:
@@ -387,7 +387,7 @@ def r5(ctx, R):
         if not ok:
             R.bad(fi, hs[0], "catch-all handler does not store sys.exc_info() in self.excinfo")
     tests = q.test_nodes(fi, lambda e: q.text(e) == "self.excinfo")
-    R.need(len(tests) >= 1, "test `if self.excinfo` not found")
+    R.must(len(tests) >= 1, "test `if self.excinfo` not found")
     handled = q.test_nodes(fi, lambda e: q.text(e) == "self.is_formula_error_handled")
     R.inst("_start_exec: with excinfo set, normal return only in handled mode")
     for t in tests:
@@ -398,7 +398,7 @@ def r5(ctx, R):
                   path=q.explain_path(fi, tsucc, [cfg.exit]))
     R.inst("_start_exec: the test on excinfo dominates the normal return of the buffer")
     rets = [r_ for r_ in q.returns(fi) if r_.value is not None and q.mentions_attr(r_.value, "buffer")]
-    R.need(rets, "return self.buffer not found")
+    R.must(rets, "return self.buffer not found")
     for r_ in rets:
         if not q.depends(fi, r_, lambda e: q.text(e) == "self.excinfo", "F"):
             R.bad(fi, r_, "buffer is returned without testing excinfo")
